@@ -36,17 +36,42 @@ def product_weights(doms):
 
 
 def nested_sum(doms, func):
-    """(S, A): S = sum over the product set of prod_k w_k * func(p_1..p_D) in long double, A = sum of magnitudes."""
+    """(S, A): S = sum over the product set of prod_k w_k * func(p_1..p_D) in long double, A = sum of magnitudes.
+
+    A complex-valued integrand is summed through its real and imaginary parts (S is then a clongdouble)."""
     ld = np.longdouble
-    terms = []
+    re, im = [], []
+    is_complex = False
     for idx in product_indices([len(d[1]) for d in doms]):
         w = ld(1.0)
         for k, i in enumerate(idx):
             w = w * ld(doms[k][1][i])
         v = func(*[doms[k][0][i] for k, i in enumerate(idx)])
-        terms.append(w * ld(float(v)))
-    t = np.array(terms, dtype=ld)
-    return t.sum(), np.abs(t).sum()
+        if np.iscomplexobj(v):
+            is_complex = True
+            v = complex(v)
+            re.append(w * ld(v.real))
+            im.append(w * ld(v.imag))
+        else:
+            re.append(w * ld(float(v)))
+            im.append(ld(0.0))
+    tr, ti = np.array(re, dtype=ld), np.array(im, dtype=ld)
+    mag = np.sqrt(tr * tr + ti * ti).sum() if is_complex else np.abs(tr).sum()
+    if is_complex:
+        return np.clongdouble(tr.sum()) + np.clongdouble(1j) * np.clongdouble(ti.sum()), mag
+    return tr.sum(), mag
+
+
+def digest(doms):
+    """Content digest of the domain arrays (the reference of a call is keyed on the CURRENT component grids)."""
+    import hashlib
+
+    h = hashlib.blake2b(digest_size=16)
+    for p, w in doms:
+        h.update(repr((p.shape, w.shape)).encode())
+        h.update(np.ascontiguousarray(p).tobytes())
+        h.update(np.ascontiguousarray(w).tobytes())
+    return h.hexdigest()
 
 
 def self_test():
@@ -64,4 +89,8 @@ def self_test():
     p = product_points([d1, d2])
     if not (p[1][0] == 0.0 and np.array_equal(p[1][1], [2.0, 0.0]) and p[3][0] == 1.0 and np.array_equal(p[3][1], [1.0, 1.0])):
         raise RuntimeError("c18ref.product_points order wrong")
+    zs, za = nested_sum([d1, d2], lambda a, b: complex(a + 1.0, b[0]))
+    # real part: 0.5*111*1 + 2*111*2 = 499.5 ; imaginary: (0.5+2)*(1*1 + 10*2 + 100*0) = 52.5
+    if abs(complex(zs) - complex(499.5, 52.5)) > 1e-12:
+        raise RuntimeError(f"c18ref.nested_sum complex self-test failed: {zs}")
     return True
